@@ -4,9 +4,37 @@ use crate::api::GlobalApi;
 use crate::ctx::{Ctx, Violation};
 use serde_json::Value;
 
+pub mod codec;
 pub mod common;
 
-pub mod c01;
+macro_rules! props {
+    ($($id:literal => $m:ident),* $(,)?) => {
+        $(pub mod $m;)*
+        fn subs(id: &str) -> Option<Vec<Sub>> {
+            match id {
+                $($id => Some($m::subs()),)*
+                _ => None,
+            }
+        }
+        fn replay_dispatch(ctx: &Ctx, id: &str, check: &str, case: &Value) -> Result<(), String> {
+            match id {
+                $($id => $m::replay(ctx, check, case),)*
+                _ => panic!("unknown property id {}", id),
+            }
+        }
+    };
+}
+
+props! {
+    "C01" => c01,
+    "C02" => c02,
+    "C04" => c04,
+    "C05" => c05,
+    "C06" => c06,
+    "C08" => c08,
+    "C14" => c14,
+    "C15" => c15,
+}
 
 pub type CheckResult = Result<(), Violation>;
 
@@ -14,13 +42,6 @@ pub type CheckResult = Result<(), Violation>;
 pub struct Sub {
     pub name: &'static str,
     pub run: fn(&Ctx) -> CheckResult,
-}
-
-fn subs(id: &str) -> Option<Vec<Sub>> {
-    Some(match id {
-        "C01" => c01::subs(),
-        _ => return None,
-    })
 }
 
 pub fn run(ctx: &Ctx, id: &str, only: Option<&str>) -> CheckResult {
@@ -44,11 +65,7 @@ pub fn replay(ctx: &Ctx, v: &Value) -> CheckResult {
     let id = v.get("property").and_then(|x| x.as_str()).unwrap_or("");
     let check = v.get("check").and_then(|x| x.as_str()).unwrap_or("");
     let case = v.get("case").cloned().unwrap_or(Value::Null);
-    let r = match id {
-        "C01" => c01::replay(ctx, check, &case),
-        _ => panic!("unknown property id {}", id),
-    };
-    match r {
+    match replay_dispatch(ctx, id, check, &case) {
         Ok(()) => Ok(()),
         Err(m) => Err(ctx.violation(check, m, case)),
     }
